@@ -39,8 +39,8 @@ def real_validate(schema, cfg, doc, update, normalize=False, want_validator=Fals
     return out
 
 
-def encode_case(schema, cfg, doc, update):
-    out = ["V"]
+def encode_case(schema, cfg, doc, update, which="c"):
+    out = ["V", which]
     enc_config(cfg, out)
     enc_value(schema, out)
     enc_value(doc, out)
@@ -67,20 +67,25 @@ def gen_cases(seed, n, **genkw):
 
 
 def run_cases(cases, driver_ok=True, normalize=False):
-    """adds 'real' and 'model' to each case (model only for normalize=False)"""
+    """adds 'real', 'model' (Impl: model at the facts extracted from the current source) and
+    'spec' (model at the documented facts) to each case (models only for normalize=False)"""
     lines, idx = [], []
     for i, c in enumerate(cases):
         c["real"] = real_validate(c["schema"], c["config"], c["document"], c["update"], normalize=normalize)
         c["model"] = None
+        c["spec"] = None
         if driver_ok and not normalize and c["real"]["r"] in ("ok", "raise"):
             try:
-                lines.append(encode_case(c["schema"], c["config"], c["document"], c["update"]))
+                lines.append(encode_case(c["schema"], c["config"], c["document"], c["update"], "c"))
+                lines.append(encode_case(c["schema"], c["config"], c["document"], c["update"], "d"))
                 idx.append(i)
             except ValueError:
                 pass
     if lines:
-        for i, m in zip(idx, common.run_driver_parallel(lines)):
-            cases[i]["model"] = m
+        res = common.run_driver_parallel(lines)
+        for j, i in enumerate(idx):
+            cases[i]["model"] = res[2 * j]
+            cases[i]["spec"] = res[2 * j + 1]
     return cases
 
 
